@@ -433,6 +433,8 @@ def check_notfitted(c):
     n = len(c["levels"])
     X = _X(n, c["levels"], c["x_kind"])
     g = _vec(c["sf_kind"], c["g1"], name="s")
+    if c.get("zero_rows") and which in ("eg_predict", "eg_pmf", "gs_predict", "gs_predict_proba"):
+        X = X[:0]  # an empty batch is no reason to skip the fitted-state check
     if which == "eg_predict":
         f = lambda: fr.ExponentiatedGradient(ExactTable(), fr.DemographicParity()).predict(X)  # noqa: E731
     elif which == "eg_pmf":
@@ -458,7 +460,7 @@ def check_notfitted(c):
         cls = AdversarialFairnessClassifier if which == "adv_clf_predict" else AdversarialFairnessRegressor
         f = lambda: cls(backend="torch").predict(np.asarray(X, dtype=float))  # noqa: E731
     _expect_raise(f, f"{which} before fit", NotFittedError)
-    return ["which:" + which, "nt"]
+    return ["which:" + which, "nt"] + (["zero_row_batch"] if c.get("zero_rows") else [])
 
 
 # ---- strategies -------------------------------------------------------------------------------------------------------
@@ -553,6 +555,7 @@ def _param_cases(draw):
 def _nf_cases(draw):
     c = draw(_base(min_n=4))
     c["which"] = draw(st.sampled_from(NOTFITTED))
+    c["zero_rows"] = draw(st.booleans())
     return c
 
 
